@@ -9,9 +9,9 @@ Lemma forallb_map' {A B} (f : B -> bool) (g : A -> B) l : forallb f (map g l) = 
 Proof. induction l as [|x l IH]; cbn; congruence. Qed.
 
 Section Q.
-  Variables (a b r2 : Z) (d : nat -> Z) (cands : list nat).
+  Variables (a b c r2 : Z) (d : nat -> Z) (cands : list nat).
 
-  Lemma accept_iff i : accept a b r2 d cands i = true <-> knn_spec_tol a b r2 d cands i.
+  Lemma accept_iff i : accept a b c r2 d cands i = true <-> knn_spec_tol a b c r2 d cands i.
   Proof.
     unfold accept, knn_spec_tol. destruct (Nat.ltb_spec i (length cands)) as [Hlt|Hge].
     - rewrite andb_true_iff, forallb_forall, Z.leb_le. split.
@@ -26,10 +26,10 @@ Section Q.
         intros s Hs. apply Z.leb_le. apply H2. exact Hs.
   Qed.
 
-  Lemma accept_sound i : accept a b r2 d cands i = true -> knn_spec_tol a b r2 d cands i.
+  Lemma accept_sound i : accept a b c r2 d cands i = true -> knn_spec_tol a b c r2 d cands i.
   Proof. apply accept_iff. Qed.
 
-  Lemma accept_list_eq i : accept_list a b r2 (map d cands) i = accept a b r2 d cands i.
+  Lemma accept_list_eq i : accept_list a b c r2 (map d cands) i = accept a b c r2 d cands i.
   Proof.
     unfold accept_list, accept. rewrite map_length.
     destruct (Nat.ltb_spec i (length cands)) as [Hlt|Hge].
@@ -38,7 +38,7 @@ Section Q.
     - rewrite forallb_map'. reflexivity.
   Qed.
 
-  Lemma accept_list_sound i : accept_list a b r2 (map d cands) i = true -> knn_spec_tol a b r2 d cands i.
+  Lemma accept_list_sound i : accept_list a b c r2 (map d cands) i = true -> knn_spec_tol a b c r2 d cands i.
   Proof. rewrite accept_list_eq. apply accept_sound. Qed.
 End Q.
 
@@ -120,10 +120,10 @@ Section BF.
   Qed.
 
   (* the exact contract implies every relaxed one *)
-  Lemma knn_spec_weaken a b i : 0 < b <= a -> 0 <= r2 -> (forall s, In s cands -> 0 <= d s) ->
-    knn_spec r2 d cands i -> knn_spec_tol a b r2 d cands i.
+  Lemma knn_spec_weaken a b c i : 0 < b <= a -> 0 <= c -> 0 <= r2 -> (forall s, In s cands -> 0 <= d s) ->
+    knn_spec r2 d cands i -> knn_spec_tol a b c r2 d cands i.
   Proof.
-    intros Hab Hr Hd [H1 H2]. split.
+    intros Hab Hc Hr Hd [H1 H2]. split.
     - intros Hi. destruct (H1 Hi) as [Ha Hb]. split.
       + intros s Hs. specialize (Ha s Hs). specialize (Hd s Hs). nia.
       + nia.
